@@ -661,8 +661,6 @@ Notes:
                 direc = asarray(direc, dtype=float)
             fval = squeeze(cost(x))
             self._stepmon(x, fval, self.id) # get initial values
-            # if savefrequency matches, then save state
-            self._AbstractSolver__save_state()
 
         elif not self.generations: # do generations = 1
             ilist = range(len(x))
@@ -714,8 +712,6 @@ Notes:
             if self._energy_history is not None: # not yet logged by Finalize
                 self.energy_history = None # resync with 'best' energy
                 self._stepmon(x, fval, self.id) # get ith values
-                # if savefrequency matches, then save state
-                self._AbstractSolver__save_state()
 
             fx = fval
             bigind = 0
@@ -740,6 +736,8 @@ Notes:
         self._direc = direc
         self.population[0] = x   # bestSolution
         self.popEnergy[0] = fval # bestEnergy
+        # if savefrequency matches, then save state (of the completed step)
+        self._AbstractSolver__save_state()
 
         # do callback
         if callback is not None: callback(self.bestSolution)
